@@ -301,6 +301,7 @@ class Prover:
             fs = fs + self.derived(fs)
             if trim is not None: fs = trim(fs, ns)
             if self.infeasible(fs): continue
+            self._ne = ns
             if not self.prove_le0(e, fs): return False
         return True
     # proving ---------------------------------------------------------------
@@ -335,12 +336,30 @@ class Prover:
                     ok = True
                     for val, extra in alts:
                         if self.infeasible(facts + extra): continue
+                        # an alternative excluded by a disequality known here (x != c on this path, alternative x == c)
+                        if any((nf.subst(a, val)).is_const() and (nf.subst(a, val)).c == 0 for nf in getattr(self, "_ne", []) if nf.coeff(a) != 0): continue
                         if not self.prove_le0(e.subst(a, val), facts + extra, depth + 1, seen): ok = False; break
                     if ok: return True
                 iu = self.intrinsic_upper(a)
                 if self.rewrite is not None: iu = [self.rewrite(f) for f in iu]        # callee-local facts in the caller's terms (context proofs)
                 cands = list(facts) + iu + self.prod_upper(a, facts)
             else:
+                # a lower bound is needed: a value that is one of several (phi / select) is bounded below on each alternative
+                alts = self.split_values(a) if depth < 4 else None
+                if alts is not None:
+                    ok = True
+                    for val, extra in alts:
+                        if self.infeasible(facts + extra): continue
+                        if any((nf.subst(a, val)).is_const() and (nf.subst(a, val)).c == 0 for nf in getattr(self, "_ne", []) if nf.coeff(a) != 0): continue
+                        fx = facts + extra; ne0 = getattr(self, "_ne", None)
+                        if ne0:
+                            from .bounds import trim as _trim
+                            self._ne = [nf.subst(a, val) if nf.coeff(a) != 0 else nf for nf in ne0]     # the disequalities speak about this alternative's value now
+                            fx = _trim(fx, self._ne)                  # x >= c and x != c on this alternative  =>  x >= c + 1
+                        try: r_ = self.prove_le0(e.subst(a, val), fx, depth + 1, seen)
+                        finally: self._ne = ne0
+                        if not r_: ok = False; break
+                    if ok: return True
                 cands = list(facts)
             for f in cands:
                 d = f.coeff(a)
